@@ -328,8 +328,13 @@ def add_links(rng, spec, nlinks, unnormalised=False):
         if text == ".":
             continue
         if unnormalised:
-            text = rng.choice(["./" + text, text.replace("/", "//", 1) if "/" in text else text + "/", text + "/.",
-                               "./" + text + "/" if tspec["k"] == "d" else "././" + text])
+            forms = ["./" + text, "././" + text]
+            if "/" in text:
+                forms.append(text.replace("/", "//", 1))
+                forms.append(text.replace("/", "/./", 1))
+            if tspec["k"] == "d":
+                forms += [text + "/", text + "/.", "./" + text + "/"]
+            text = rng.choice(forms)
         used = {n for n, _ in dspec["c"]}
         n = rand_name(rng, used)
         dspec["c"].append([n, {"k": "l", "to": text}])
@@ -423,10 +428,14 @@ def run_impl(spec, cfg, base):
     os.mkdir(work)
     src = os.path.join(work, "src")
     build_tree(spec, src)
+    try:
+        expmap = snap(src, follow=cfg["deref"])
+    except (RecursionError, OSError) as e:
+        return {"src": src, "skip": "cyclic under dereference: %s" % type(e).__name__}
     ar = os.path.join(base, "t.7z")
     out = os.path.join(base, "out")
     mode = cfg["mode"]
-    res = {"src": src, "ar": ar, "out": out, "exc": None, "stage": None}
+    res = {"src": src, "ar": ar, "out": out, "exc": None, "stage": None, "expmap": expmap}
     arcname = None
     if mode == "dot":
         cwd, path, prefix = src, ".", []
@@ -524,15 +533,21 @@ def classify_diff(p, exp, got, expmap, gotmap, cfg, spec):
         if p == cw and exp is not None and exp[0] == "dir":
             if got is None or (got[0] == "dir" and (got[1] != exp[1] or got[3] != exp[3])):
                 return "cwd-directory-entry-skipped"
-    top = p.split("/")[0]
-    if mode == "dot" and len(top) >= 2 and top[1] == ":" and top[0].isascii() and top[0].isalpha():
-        return "drive-letter-name"
-    if mode == "dot" and exp is None:
-        # the mangled name of a drive-letter entry turns up as an extra path
+    if mode == "dot":
+        # first components that _sanitize_archive_arcname mangles, and the names they turn into
+        def drive(t):
+            return len(t) >= 2 and t[1] == ":" and t[0].isascii() and t[0].isalpha()
+        top = p.split("/")[0]
+        if drive(top):
+            return "drive-letter-name"
         for q in expmap:
             t = q.split("/")[0]
-            if len(t) >= 2 and t[1] == ":" and t[0].isascii() and t[0].isalpha():
-                return "drive-letter-name"
+            if drive(t):
+                rest = q.split("/")[1:]
+                mangled = ([t[2:]] if t[2:] else []) + rest
+                tgt = "/".join(mangled)
+                if p == tgt or p.startswith(tgt + "_") or p.startswith(tgt + "/") or (tgt and tgt.startswith(p + "/")):
+                    return "drive-letter-name"
     return "unclassified"
 
 
@@ -600,6 +615,9 @@ def run_case(arg):
     try:
         t0 = time.time()
         res = run_impl(spec, cfg, base)
+        if res.get("skip"):
+            r["skip"] = res["skip"]
+            return r
         r["exc"] = res["exc"]
         r["stage"] = res["stage"]
         src = res["src"]
@@ -610,11 +628,7 @@ def run_case(arg):
                       "depth": max(len(p) for p, _ in nodes),
                       "bytes": sum(s["size"] for _, s in nodes if s["k"] == "f")}
         # ---- expected by the property
-        try:
-            expmap = snap(src, follow=cfg["deref"])
-        except (RecursionError, OSError) as e:
-            r["skip"] = "cyclic under dereference: %s" % e
-            return r
+        expmap = res["expmap"]
         root_has_entry = cfg["mode"] not in ("dot",)
         gotmap = None
         if res["exc"] is None:
@@ -649,9 +663,7 @@ def run_case(arg):
                     r["model"].append("model walk fails (%r) but writeall succeeded" % (w[1],))
                 else:
                     ents = w[1]
-                    cont = {}
-                    for n, b in res["contents"]:
-                        cont.setdefault(n, b)
+                    cont_it = iter(res["contents"])     # products of the non-directory members, in member order
                     real = res["members"]
                     if len(ents) != len(real):
                         r["model"].append("member count: model %d, archive %d" % (len(ents), len(real)))
@@ -666,7 +678,7 @@ def run_case(arg):
                         if not is_link and e[3] != m[3]:
                             r["model"].append("member %r: model FILETIME %d, archive %r" % (name, e[3], m[3]))
                         if not (e[2] & 0x10):
-                            b = cont.get(m[0])
+                            b = next(cont_it, (None, None))[1]
                             if b is None:
                                 r["model"].append("member %r: no content read from the archive" % name)
                             elif is_link:
@@ -974,7 +986,8 @@ def explore(ctx, rep, rng, tier):
             try:
                 results.append((cls, spec, cfg, p.get(timeout=300)))
             except multiprocessing.TimeoutError:
-                results.append((cls, spec, cfg, {"crash": "timeout (300 s)", "diffs": [], "model": []}))
+                results.append((cls, spec, cfg, {"crash": "timeout (300 s): the implementation hangs", "diffs": [], "model": []}))
+                break
     reported = set()
     for cls, spec, cfg, r in results:
         key = json.dumps([spec, cfg], sort_keys=True)
